@@ -51,6 +51,7 @@ def gen_case(rng, tier):
     prof["partial"] = rng.choice([0, 0, 0, 0.3])  # setups that only write some of the fields
     prof["state_loops"] = rng.choice([0, 0.5, 0.5])  # hand-threaded loops that already carry an accelerator's state ...
     prof["head_launch"] = rng.choice([0, 0.5, 0.7])  # ... and first launch the configuration they were entered with (plain or guarded)
+    G.classic(rng, prof)
     ast = G.AccfgGen(rng, prof).program()
     envs = gen_envs(rng, K_ENVS[tier])
     for e in envs[1:]:
